@@ -1386,6 +1386,44 @@ struct sp_tr : base_tr
   }
 };
 
+// a nested composition: optional< variant< optional<int>, vector<int,2> > > - every level uses the fcppt operator of the
+// level below.  Encoding: - nothing; 0 just(nothing); 0,x just(just x); 1,x,y just(vector(x,y))
+struct nest_tr : base_tr
+{
+  using inner_opt = fcppt::optional::object<int>;
+  using vec = fcppt::math::vector::static_<int, 2>;
+  using var = fcppt::variant::object<inner_opt, vec>;
+  using type = fcppt::optional::object<var>;
+  static constexpr bool has_lt = true;
+  static constexpr unsigned routes = 2;
+  static std::optional<type> make(V const &l, unsigned route = 0)
+  {
+    auto const wrap = [route](var &&v) -> type
+    {
+      if (route % routes == 0)
+        return type{std::move(v)};
+      type r{var{vec{7, 7}}};
+      r = type{std::move(v)}; // assigned over another alternative
+      return r;
+    };
+    if (l.empty())
+    {
+      if (route % routes == 0)
+        return type{};
+      type r{var{inner_opt{3}}};
+      r = type{};
+      return r;
+    }
+    if (l.size() == 1 && l[0] == 0)
+      return wrap(var{inner_opt{}});
+    if (l.size() == 2 && l[0] == 0)
+      return wrap(var{inner_opt{static_cast<int>(l[1])}});
+    if (l.size() == 3 && l[0] == 1)
+      return wrap(var{vec{static_cast<int>(l[1]), static_cast<int>(l[2])}});
+    return std::nullopt;
+  }
+};
+
 struct unit_tr : base_tr
 {
   using type = fcppt::unit;
@@ -1910,6 +1948,7 @@ std::string handle(std::vector<std::string> const &t)
     if (ty == "grid1") return engine<grid1_tr>::handle(t);
     if (ty == "grid3") return engine<grid3_tr>::handle(t);
     if (ty == "unit") return engine<unit_tr>::handle(t);
+    if (ty == "nest") return engine<nest_tr>::handle(t);
     if (ty == "itr") return engine<itr_tr>::handle(t);
     if (ty == "tree") return engine<tree_tr>::handle(t);
     if (ty == "rv") return engine<rv_tr>::handle(t);
